@@ -15,7 +15,7 @@ PROPS_MODULES = ['RTV.Props.C12']
 GEN = ['chartables', 'preprocess']
 REQUIRED_THEOREMS = ['runs_disjoint', 'sweep_disjoint', 'sweep_disjoint_ip', 'sweep_disjoint_number',
                      'sweep_disjoint_number_noNeg', 'sweep_number_neg_counterexample', 'sweep_disjoint_percent',
-                     'mergeAllTokens_disjoint', 'nwu_filter_no_containment', 'nwu_filter_keeps_nested',
+                     'mergeAllTokens_disjoint', 'nwu_filter_no_containment', 'nwu_filter_keeps_nested', 'nwu_filter_sym_no_nesting',
                      'addTo_crossing_counterexample', 'addTo_disjoint_of_noCrossing', 'overlap_cover_meaning',
                      'mergedExtract_disjoint', 'mergedExtract_disjoint_of_laminar', 'mergedExtract_crossing_counterexample', 'addTo_step_disjoint_iff']
 RULE = ('pipeline: every Python-supported Specs input through its own (model, culture) pair (thorough: through every '
